@@ -216,8 +216,13 @@ def check_property(pid, tier="quick", seed=0, write_baseline=False):
         return res
     os.makedirs(EVIDENCE_DIR, exist_ok=True)
     json.dump(ev, open(os.path.join(EVIDENCE_DIR, f"{pid}.json"), "w"), indent=1, default=str)
+    seen_kf = set()
     for k in verdict["known"]:
-        print(f"KNOWN-FINDING: property={pid} {k.get('what_fails', k.get('id'))}")
+        if k.get("id") in seen_kf:
+            continue
+        seen_kf.add(k.get("id"))
+        n_k = sum(1 for x in verdict["known"] if x.get("id") == k.get("id"))
+        print(f"KNOWN-FINDING: property={pid} {k.get('what_fails', k.get('id'))} [{n_k} witnesses in the listed input class]")
     for e in verdict["errors"]:
         print(f"CHECKER-ERROR property={pid} {e}")
     for u in verdict["undecided"]:
@@ -249,6 +254,7 @@ def match_known(known, pid, v):
                 continue  # never suppress by id alone
             try:
                 w = v.get("witness") or json.load(open(v["replay"]))
+                w = dict(w)
                 if eval(cls, {"__builtins__": {"all": all, "any": any, "len": len, "min": min, "max": max, "range": range, "abs": abs}}, {"w": w}):
                     return kf
             except Exception:
